@@ -130,12 +130,12 @@ fn check_equalities(w: &World) -> Check {
     Ok(())
 }
 
-const NOPS: usize = 17;
+const NOPS: usize = 19;
 
 fn step(src: &mut Src, w: &mut World, tier: Tier, out: &mut Outcome) -> Result<(), Failure> {
     let k = src.below(w.live.len());
     let cfg = SeqCfg { max_len: tier.pick(6, 10), body_pct: 40 };
-    let op = src.weighted(&[3, 4, 2, 2, 2, 3, 2, 2, 3, 2, 2, 2, 3, 2, 1, 1, 2]);
+    let op = src.weighted(&[2, 4, 2, 2, 2, 3, 2, 2, 3, 2, 2, 2, 3, 2, 1, 1, 2, 4, 3]);
     debug_assert!(op < NOPS);
     match op {
         0 => {
@@ -278,6 +278,42 @@ fn step(src: &mut Src, w: &mut World, tier: Tier, out: &mut Outcome) -> Result<(
                 Err(_) => out.class("op-error"),
             }
         }
+        17 | 18 => {
+            // directed: redefine one of #k's calibrations (same identifier, new body) through
+            // concatenation with a one-definition program (17) or through add_instruction (18)
+            let cals: Vec<Instruction> = w.live[k]
+                .p
+                .to_instructions()
+                .into_iter()
+                .filter(|i| matches!(i, Instruction::CalibrationDefinition(_) | Instruction::MeasureCalibrationDefinition(_)))
+                .collect();
+            if cals.is_empty() {
+                out.class("op-error");
+                return Ok(());
+            }
+            let mut redefinition = src.pick(&cals).clone();
+            let body = vec![defs::parse1(if src.chance(1, 2) { "PRAGMA redefined" } else { "FENCE 9" })];
+            match &mut redefinition {
+                Instruction::CalibrationDefinition(c) => c.instructions = body,
+                Instruction::MeasureCalibrationDefinition(c) => c.instructions = body,
+                _ => {}
+            }
+            if op == 17 {
+                let via_add = src.chance(1, 2);
+                w.log.push(format!("#{k} {} Program[{}]", if via_add { "= #k +" } else { "+=" }, defs::show(&redefinition)));
+                let rhs = lib(|| Program::from_instructions(vec![redefinition]))?;
+                if via_add {
+                    let lhs = w.live[k].p.clone();
+                    w.live[k].p = lib(|| lhs + rhs)?;
+                } else {
+                    lib(|| w.live[k].p += rhs)?;
+                }
+            } else {
+                w.log.push(format!("#{k}.add_instruction({}) [redefinition]", defs::show(&redefinition)));
+                lib(|| w.live[k].p.add_instruction(redefinition))?;
+            }
+            out.class("op:redefine-calibration");
+        }
         _ => {
             w.log.push(format!("#{k} = parse(#{k}.to_quil())"));
             match lib(|| w.live[k].p.to_quil())? {
@@ -297,10 +333,10 @@ impl Property for C10Prop {
         "C10"
     }
     fn rule(&self) -> &'static str {
-        "random histories of <= 8 (quick) / <= 20 (thorough) operations over 1-3 live programs; operations: from_instructions, add_instruction (body, placeholder-bearing, or definition), add_instructions, +, +=, clone_without_body_instructions, resolve_placeholders (default and custom), expand_calibrations (both entry points), expand_defgate_sequences (both entry points, all 8 filters over the gate-name pool), simplify, wrap_in_loop (n 0..3, fixed or placeholder target), filter_instructions, dagger, parse(to_quil). Programs come from the shared definition generator, whose calibrations mention qubits (3, 6, 7) that no body instruction uses. After every operation every live program is checked. Non-trivial = the history applies clone-without-body / expansion / simplify / wrap_in_loop / resolve to a program that holds a calibration; distinct by the history's hash."
+        "random histories of <= 8 (quick) / <= 20 (thorough) operations over 1-3 live programs; operations: from_instructions, add_instruction (body, placeholder-bearing, or definition), add_instructions, +, +=, clone_without_body_instructions, resolve_placeholders (default and custom), expand_calibrations (both entry points), expand_defgate_sequences (both entry points, all 8 filters over the gate-name pool), simplify, wrap_in_loop (n 0..3, fixed or placeholder target), filter_instructions, dagger, parse(to_quil), and directed redefinition of one of the program's own calibrations (same identifier, new body) through + / += of a one-definition program or through add_instruction. Programs come from the shared definition generator, whose calibrations mention qubits (3, 6, 7) that no body instruction uses. After every operation every live program is checked. Non-trivial = the history applies clone-without-body / expansion / simplify / wrap_in_loop / resolve to a program that holds a calibration; distinct by the history's hash."
     }
     fn max_words(&self) -> usize {
-        20 * 120 + 10
+        20 * 120 + 3 * 100 + 10
     }
     fn cases(&self, tier: Tier) -> u64 {
         tier.pick(30_000, 500_000)
@@ -314,6 +350,12 @@ impl Property for C10Prop {
             log: vec![],
         };
         let steps = 1 + src.below(ctx.tier.pick(8, 20));
+        // every live program starts from a generated instruction sequence
+        for k in 0..nlive {
+            let items = defs::sequence(src, &SeqCfg { max_len: ctx.tier.pick(8, 12), body_pct: 35 });
+            w.log.push(format!("#{k} = from_instructions[{}]", defs::render(&items)));
+            w.live[k].p = lib(|| Program::from_instructions(items.iter().map(|i| i.instr.clone()).collect()))?;
+        }
         let mut result: Check = Ok(());
         for _ in 0..steps {
             let classes_before = out.classes.len();
@@ -407,6 +449,7 @@ impl Property for C10Prop {
             ("op:simplify", 0.05),
             ("op:resolve", 0.1),
             ("op:concat", 0.1),
+            ("op:redefine-calibration", 0.05),
         ]
     }
 }
